@@ -274,8 +274,8 @@ def evaluate_pair(case):
         if o.status in ("not-well-defined", "rejected-other"):
             return o.status, "", o.detail
     if len(outs) == 2 and all(o.status == "ok" for o in outs.values()):
-        a = tc._collapse(tc.fw_obs(outs["lit"].trace), drop_reads=False)
-        b = tc._collapse(tc.fw_obs(outs["var"].trace), drop_reads=False)
+        a = tc._collapse(tc.fw_obs(outs["lit"].trace), drop_reads=False, side="fw")
+        b = tc._collapse(tc.fw_obs(outs["var"].trace), drop_reads=False, side="fw")
         sa = [x[1:] for x in a]; sb = [x[1:] for x in b]
         if sa != sb:
             i = next((i for i, (x, y) in enumerate(zip(sa, sb)) if x != y), min(len(sa), len(sb)))
